@@ -373,6 +373,11 @@ def activate_repo(native_dir=None, repo=REPO):
 
 
 # --------------------------------------------------------------------------------------
+class TranslatorError(Exception):
+    """a translator could not read the fragment of the source it regenerates the model from: the tie between
+    model and source is lost (reported like a broken proof obligation; the failing-input search still runs)"""
+
+
 def load_known():
     """known_findings.json (+ known_findings.d/*.json while properties are being built); never written at run time"""
     out = []
@@ -463,9 +468,16 @@ def run_check(pid, tier, body, needs_native=False, regen=None, level_partial=Non
     ctx = Ctx(pid, tier, seed, lean)
     infra_error = None
     try:
+        translator_broken = None
         if regen is not None:
-            regen(ctx)
+            try:
+                regen(ctx)
+            except TranslatorError as e:
+                translator_broken = f"translator: {e} (the previously generated Lean fragment is kept)"
         proofs_ok = lean.build() and lean.audit()
+        if translator_broken:
+            lean.broken.append(translator_broken)
+            proofs_ok = False
         if proofs_ok and tier == "thorough" and os.environ.get("VERIF_NO_LEANCHECKER") != "1":
             proofs_ok = lean.leanchecker()
         if needs_native:
